@@ -136,6 +136,17 @@ def r07_transfer_once(ctx):
         ctx.check(okw, R, wl[0] if wl else t.node, t, 'a transferred ballot moves to its next continuing candidate',
                   'while not exhausted and topCand not in %s: advance()' % ('+'.join(sorted(cont)) if cont else '?'),
                   'the ballot walk of transfer() does not skip exactly the non-continuing candidates')
+    # the non-transferable total starts at zero before the first action is recorded or any ballot is transferred
+    for ri in gregory_rules(ctx):
+        f, cfg = ri.count, ri.cfg
+        X = {x for x in cfg.stmt_nodes() if x.kind == 'stmt' and isinstance(x.ast, ast.Assign) and ctx.canon(x.ast.targets[0], f) == 'E.exhausted'}
+        oki = bool(X) and all(ctx.canon(x.ast.value, f) == 'E.V0' for x in X) and not any(x in cfg.nodes_in(ri.main_loop()) for x in X)
+        users = {x for x in cfg.stmt_nodes() if x not in X and any(ctx.canon(c.func, f) in ('E.logAction', 'E.newRound') or
+                                                                (isinstance(c.func, ast.Name) and c.func.id == 'transfer') for c in calls_at(x))}
+        early = cfg.reach([cfg.entry], avoid=X, include_start=True) & users
+        ctx.check(oki and not early, R, f.node, f, 'the non-transferable total of rule %s starts at zero, once, before anything is recorded or transferred' % ri.short,
+                  'E.exhausted = V0 dominates the first logAction/newRound/transfer and is outside the main loop',
+                  'E.exhausted is %s' % ('not initialised to zero before line %s' % sorted(x.line for x in early)[0] if early else 're-initialised inside the loop / not zero'))
     ctx.floor(R, 'transfer functions', n, 5)
     ctx.note(R, 'continuing sets of the sibling transfer() functions: %s (mpls also accepts pending candidates: it elects and '
              'transfers in one step and never sets pending)' % summaries)
